@@ -311,6 +311,50 @@ theorem drain_all (fs : Nat) (hfs : 0 < fs) : ∀ (n : Nat) (src : List Bytes), 
       unfold copyN
       exact hfl
 
+theorem emit_length_mono (cp : Comp S) (a b : List Op) : (cp.emit a).length ≤ (cp.emit (a ++ b)).length := by
+  rw [emit_append]; simp
+
+/-- a failing source never produces io.EOF, and the filter never closes the compressor -/
+theorem freadX_failing (cp : Comp S) (hp : cp.FlushProgress) (body : Bytes) (fs : Nat) (hfs : 0 < fs)
+    (st : FSt) (p : Nat) (hi : Inv cp body st) (hopen : st.closed = false) :
+    (freadX cp fs true st p).1.2 ≠ RRes.eof ∧ (freadX cp fs true st p).2.closed = false ∧
+    Inv cp body (freadX cp fs true st p).2 := by
+  unfold freadX
+  by_cases hlt : st.src.flatten.length < fs
+  · simp only [hlt, decide_true, Bool.and_self, if_true]
+    refine ⟨by simp, hopen, ?_⟩
+    obtain ⟨hw, hnc, _, hle⟩ := hi
+    have hfl := copyLoop_flatten (copyBuf fs) (copyBuf_pos fs) st.src fs
+    refine ⟨?_, ?_, ?_, ?_⟩
+    · show written (st.trace ++ _) ++ _ = body
+      rw [written_append, written_map_w, List.append_assoc, ← hw]
+      congr 1
+    · intro _
+      show Op.c ∉ st.trace ++ _
+      simp only [List.mem_append, not_or]
+      exact ⟨hnc hopen, c_not_mem_map_w _⟩
+    · intro h
+      have : st.closed = true := h
+      rw [hopen] at this; cases this
+    · exact Nat.le_trans hle (emit_length_mono cp _ _)
+  · simp only [hlt, decide_false, Bool.and_false, Bool.false_eq_true, if_false]
+    have hinv := fread_inv cp hp body fs hfs st p hi
+    have hc0 : (copyN st.src fs).1.flatten.length ≠ 0 := by
+      intro h0
+      have := (copyN_zero_iff_done st.src fs hfs h0).1
+      rw [this] at hlt
+      simp at hlt
+      omega
+    have hcl : (fread cp fs st p).2.closed = false := by
+      rw [fread_closed]; unfold readClosed; rw [if_pos hc0]; exact hopen
+    refine ⟨?_, hcl, hinv.1⟩
+    intro heof
+    split at heof
+    · rename_i he
+      have := (hinv.2.2 he).1
+      rw [hcl] at this; cases this
+    · cases heof
+
 /-! ### a concrete compressor meeting both contracts (non-vacuity of C54_stream)
 
   write emits `1 x` for every byte x, flush emits `0`, close emits `2`. -/
